@@ -30,12 +30,19 @@
 (*                       created and written in place, hash line first     *)
 (*   "FlushAfterRename"  (a seeded change) the temporary file is renamed   *)
 (*                       to the cache name before the final flush          *)
+(*   "InPlaceFallback"   (a seeded change) when the temporary file cannot  *)
+(*                       be created the cache file is written in place,    *)
+(*                       removed again by a deferred clean-up unless the   *)
+(*                       run completed - which a kill never executes       *)
+(* tempOK: whether a temporary file can be created next to the cache file  *)
+(* (its name is longer than the cache file's: for binary names of 240 and  *)
+(* more characters it exceeds NAME_MAX while the cache file's does not).   *)
 (***************************************************************************)
 EXTENDS Integers, Sequences, FiniteSets, TLC
 CONSTANTS NChunks, Dev
 
-VARIABLES cache, tmp, pc, buf, sent, used, run, toolOK, failAt, rebuilt, fate, where
-vars == <<cache, tmp, pc, buf, sent, used, run, toolOK, failAt, rebuilt, fate, where>>
+VARIABLES cache, tmp, pc, buf, sent, used, run, toolOK, failAt, rebuilt, fate, where, tempOK
+vars == <<cache, tmp, pc, buf, sent, used, run, toolOK, failAt, rebuilt, fate, where, tempOK>>
 
 Absent == [hash |-> "none", body |-> 0]
 InPlace == "InPlaceCache" \in Dev
@@ -46,7 +53,8 @@ HasData == buf.hash \/ buf.chunks > 0
 \* the file the writer of this run writes to, and how to replace its content
 Target == IF where = "cache" THEN cache ELSE tmp
 Set(f) == IF where = "cache" THEN cache' = f /\ UNCHANGED tmp ELSE tmp' = f /\ UNCHANGED cache
-Keep == UNCHANGED <<run, toolOK, failAt, rebuilt, fate>>
+Keep == UNCHANGED <<run, toolOK, failAt, rebuilt, fate, tempOK>>
+Fallback == "InPlaceFallback" \in Dev /\ ~tempOK
 
 Init ==
   /\ cache = Absent /\ tmp = Absent
@@ -54,6 +62,7 @@ Init ==
   /\ toolOK \in BOOLEAN /\ failAt \in 0..(NChunks + 1)   \* NChunks + 1 = the tool succeeds
   /\ rebuilt \in BOOLEAN
   /\ fate = <<>> /\ where = IF InPlace THEN "cache" ELSE "tmp"
+  /\ tempOK \in BOOLEAN
 
 \* os.Open + read 64 bytes + compare with the hash of the binary
 Compare ==
@@ -63,8 +72,10 @@ Compare ==
 \* os.Create / os.CreateTemp: an empty file
 Create ==
   /\ pc = "create"
-  /\ Set(Absent)
-  /\ pc' = "hashline" /\ UNCHANGED <<buf, sent, used, where>> /\ Keep
+  /\ IF InPlace \/ tempOK THEN Set(Absent) /\ pc' = "hashline" /\ UNCHANGED where
+     ELSE IF Fallback THEN where' = "cache" /\ cache' = Absent /\ UNCHANGED tmp /\ pc' = "hashline"
+     ELSE pc' = "failed" /\ UNCHANGED <<cache, tmp, where>>        \* os.CreateTemp fails: the run fails
+  /\ UNCHANGED <<buf, sent, used>> /\ Keep
 \* out.WriteString(hash): goes to the buffer
 HashLine ==
   /\ pc = "hashline"
@@ -100,14 +111,14 @@ Dump ==
 FailedCleanup ==
   /\ pc = "failed"
   /\ IF where = "cache"
-     THEN /\ cache' = (IF InPlace THEN Written(buf.chunks) ELSE cache) /\ UNCHANGED tmp
+     THEN /\ cache' = (IF InPlace THEN Written(buf.chunks) ELSE IF Fallback THEN Absent ELSE cache) /\ UNCHANGED tmp
      ELSE /\ tmp' = Absent /\ UNCHANGED cache
   /\ pc' = "done" /\ used' = -1 /\ buf' = Empty
   /\ UNCHANGED <<sent, where>> /\ Keep
 Close ==
   /\ pc = "close"
-  /\ pc' = IF InPlace THEN "use" ELSE "rename"
-  /\ used' = IF InPlace THEN cache.body ELSE used
+  /\ pc' = IF InPlace \/ where = "cache" THEN "use" ELSE "rename"
+  /\ used' = IF InPlace \/ where = "cache" THEN cache.body ELSE used
   /\ UNCHANGED <<cache, tmp, buf, sent, where>> /\ Keep
 Rename ==
   /\ pc = "rename"
@@ -121,7 +132,7 @@ Kill ==
   /\ run = 1 /\ pc \notin {"done", "dead"}
   /\ pc' = "dead" /\ used' = -1
   /\ fate' = Append(fate, pc)
-  /\ UNCHANGED <<cache, tmp, buf, sent, run, toolOK, failAt, rebuilt, where>>
+  /\ UNCHANGED <<cache, tmp, buf, sent, run, toolOK, failAt, rebuilt, where, tempOK>>
 \* the next run: a normal one (tool present and succeeding, no write failures); the binary may have been rebuilt
 NextRun ==
   /\ run = 1 /\ pc \in {"done", "dead"}
@@ -130,7 +141,7 @@ NextRun ==
   /\ cache' = IF rebuilt /\ cache.hash = "cur" THEN [cache EXCEPT !.hash = "old"] ELSE cache
   /\ fate' = Append(fate, IF pc = "dead" THEN "killed" ELSE IF used = -1 THEN "failed" ELSE "ok")
   /\ where' = IF InPlace THEN "cache" ELSE "tmp"
-  /\ UNCHANGED <<tmp, rebuilt>>
+  /\ UNCHANGED <<tmp, rebuilt, tempOK>>
 Next == Compare \/ Create \/ HashLine \/ Spill \/ (run = 1 /\ SpillFails) \/ Dump \/ FailedCleanup \/ Close \/ Rename \/ Use \/ Kill \/ NextRun
 Spec == Init /\ [][Next]_vars
 
@@ -140,5 +151,5 @@ SecondRunSound == (run = 2 /\ pc = "done" /\ used # -1) => used = NChunks
 \* a file that carries the current hash under the cache name is complete
 ValidMeansComplete == (cache.hash = "cur" /\ ~(pc = "lateflush")) => cache.body = NChunks
 \* a run that was not disturbed succeeds
-UndisturbedSucceeds == (run = 2 /\ pc = "done") => used = NChunks
+UndisturbedSucceeds == (run = 2 /\ pc = "done" /\ tempOK) => used = NChunks
 =============================================================================
